@@ -29,6 +29,8 @@ type Program struct {
 	funcs map[string]*ssa.Function // qualified name -> function (repo only, incl. anon)
 
 	mutGlobals map[string]bool
+	mutFields  map[string]bool
+	aliasCache map[string]string
 	vta        *callgraph.Graph
 }
 
